@@ -507,8 +507,43 @@ _verdict(err > 1e-5, max_dense_output_error=err, requested_tolerance=1e-9)
 ''' % (5 if scheme == 'rk45' else 8)
 
 
+def _replay_general():
+    """General confirmation on the compiled build: a non-autonomous, nonlinear 2-d problem with a tight-tolerance reference;
+    observed order of every fixed-step scheme, and tolerance-proportional error (end value and dense output on a non-uniform
+    output grid) of both adaptive schemes."""
+    return '''
+from hiten.algorithms.integrators.rk import AdaptiveRK, RungeKutta
+from hiten.algorithms.dynamics.rhs import create_rhs_system
+import numba
+@numba.njit
+def rhs(t, y):
+    return np.array([y[1] + 0.3 * np.sin(2.0 * t) * y[0], -np.sin(y[0]) + 0.2 * np.cos(t) * y[1] * y[1] + 0.1 * t])
+sysm = create_rhs_system(rhs, dim=2, name="forced pendulum")
+y0 = np.array([0.4, -0.3]); T = 2.0
+tout = np.array([0.0, 0.13, 0.5, 0.51, 0.9, 1.37, 1.7, 2.0])
+ref = AdaptiveRK(order=8, rtol=1e-13, atol=1e-13).integrate(sysm, y0, np.linspace(0.0, T, 4001))
+ref_at = lambda t: np.array([np.interp(t, ref.times, ref.states[:, i]) for i in range(2)])
+bad = {}
+for order, (n1, n2) in ((4, (40, 80)), (6, (20, 40)), (8, (10, 20))):
+    e = []
+    for n in (n1, n2):
+        sol = RungeKutta(order=order).integrate(sysm, y0, np.linspace(0.0, T, n + 1))
+        e.append(float(np.max(np.abs(sol.states[-1] - ref.states[-1]))))
+    obs = float(np.log2(e[0] / max(e[1], 1e-300)))
+    if e[1] > 1e-12 and obs < order - 0.5: bad["fixed_order_%d" % order] = "observed order %.2f (errors %.2e, %.2e)" % (obs, e[0], e[1])
+for order in (5, 8):
+    for tol in (1e-6, 1e-9):
+        sol = AdaptiveRK(order=order, rtol=tol, atol=tol).integrate(sysm, y0, tout)
+        if not np.allclose(sol.times, tout, rtol=0, atol=1e-14): bad["adaptive_%d_grid" % order] = "returned times are not the requested output times"; continue
+        err = max(float(np.max(np.abs(sol.states[i] - ref_at(tout[i])))) for i in range(len(tout)))
+        if err > 2e3 * tol + 1e-10: bad["adaptive_%d_tol_%g" % (order, tol)] = "max error %.2e on the output grid" % err
+_verdict(bool(bad), **bad)
+'''
+
+
 def main():
     chk = Check(PID)
+    chk.default_replay = _replay_general
     import hiten.algorithms.integrators.rk as rkmod
     thorough = chk.tier == 'thorough'
     chk.encode(rkmod.rk_embedded_step_jit_kernel, rkmod.rk45_step_jit_kernel, rkmod.dop853_step_jit_kernel, rkmod.rk_embedded_step_ham_jit_kernel,
